@@ -76,6 +76,15 @@ mod verif_kani_zbsdiff {
         check_shape([(0, 2, 0), (3, 0, 0)]);
     }
 
+    /// C16 (bounded: a seek-only triple (0,0,s1) - what the suffix builder emits first when the match does
+    /// not start at old[0] - followed by (2,1,s2))
+    #[kani::proof]
+    #[kani::unwind(6)]
+    #[kani::stub(alloc::fmt::format, empty_format)]
+    fn apply_matches_oracle_seek_only_first() {
+        check_shape([(0, 0, 0), (2, 1, 0)]);
+    }
+
     fn check_shape(shape: [(i64, i64, i64); 2]) {
         let oldb: [u8; 3] = kani::any();
         let diffb: [u8; 3] = kani::any();
